@@ -40,6 +40,8 @@ type fctx struct {
 	inSwitch int
 	natVars  map[*types.Var]bool
 	switchBreak []string // code for `break` inside the enclosing switch statements
+	views    map[*types.Var]viewInfo
+	inViewWriteback bool
 }
 
 func (c *fctx) fail(n ast.Node, format string, a ...interface{}) {
